@@ -336,20 +336,83 @@ def run(chk, prog):
     A.require(len(res) >= 5, "main: constructions of simulation objects not found")
     chk.check(all(ok_ for _, ok_ in res), "R6", mainf.where, "options are parsed on every path before any simulation object is built (%d constructions)" % len(res),
               "main:parse-dominates-build")
-    # parse(): missing / unreadable file
-    rf = [x for x in A.walk(pf["body"]) if x["k"] == "ReturnStmt" and A.strip(x["c"][0]).get("value") is False]
-    pidx = A.index(pf)
-    miss = unread = False
-    for r in rf:
-        enc = A.enclosing(pidx, r, {"IfStmt"})
-        blk = pidx[1].get(r["id"])
-        says = blk is not None and any(y["k"] == "CXXOperatorCallExpr" and y.get("op") == "<<" for y in A.walk(blk))
-        conds = " ".join(A.show(e["cond"]) for e in enc)
-        if "exists" in conds and says and any(pidx[1].get(r["id"])["id"] in {y["id"] for y in A.walk(e.get("else") or {})} for e in enc if "exists" in A.show(e["cond"])):
-            miss = True
-        if "!ifs" in conds.replace(" ", "") and says:
-            unread = True
-    chk.check(miss, "R6", pf.where, "a config file that does not exist prints a message and makes parse() return false", "parse:missing-file")
-    chk.check(unread, "R6", pf.where, "a config file that cannot be opened prints a message and makes parse() return false", "parse:unreadable-file")
+    # parse(): missing / unreadable file -- decided on the CFG of parse() with the branch conditions evaluated under the hypothesis
+    # (three-valued: a condition the hypothesis does not fix stays open), not on the spelling of the if/else
+    locals_init = {}
+    for x in A.walk(pf["body"]):
+        if x.get("k") == "DeclStmt":
+            for d in x.get("decls", []):
+                if d.get("k") == "VarDecl" and isinstance(d.get("init"), dict) and d.get("is_const"):
+                    locals_init[d["decl"]] = d["init"]
+
+    def tv(c, atom):
+        """truth value of condition c given atom(node) -> True/False/None for atomic tests"""
+        c = A.strip(c)
+        if c.get("k") == "UnaryOperator" and c.get("op") == "!":
+            v = tv(c["c"][0], atom)
+            return None if v is None else (not v)
+        if c.get("k") == "BinaryOperator" and c.get("op") in ("&&", "||"):
+            a_, b_ = tv(c["c"][0], atom), tv(c["c"][1], atom)
+            if c["op"] == "&&":
+                return False if (a_ is False or b_ is False) else (True if (a_ and b_) else None)
+            return True if (a_ is True or b_ is True) else (False if (a_ is False and b_ is False) else None)
+        if c.get("k") == "DeclRefExpr" and c.get("decl") in locals_init:
+            return tv(locals_init[c["decl"]], atom)
+        if c.get("k") in ("CXXOperatorCallExpr", "CXXMemberCallExpr") and c.get("op") in ("!",):
+            v = tv(c["args"][0], atom)
+            return None if v is None else (not v)
+        return atom(c)
+
+    def hypothesis(kind):
+        def atom(c):
+            txt = A.show(c).replace(" ", "")
+            callee = c.get("callee") or ""
+            if kind == "missing":
+                if callee in ("boost::filesystem::exists", "boost::filesystem::is_regular_file", "std::filesystem::exists", "std::filesystem::is_regular_file"):
+                    return False
+            if kind == "unreadable":
+                if callee in ("boost::filesystem::exists", "boost::filesystem::is_regular_file", "std::filesystem::exists", "std::filesystem::is_regular_file"):
+                    return True
+                # the stream tested in a boolean context: `!ifs`, `ifs.fail()`, `!ifs.is_open()`
+                if "basic_ifstream" in (c.get("ctype") or "") or (c.get("k") == "CXXMemberCallExpr" and callee.endswith("::operatorbool") or "operator bool" in callee):
+                    return False
+                if c.get("k") == "CXXMemberCallExpr" and callee.split("::")[-1] in ("fail", "bad"):
+                    return True
+                if c.get("k") == "CXXMemberCallExpr" and callee.split("::")[-1] in ("is_open", "good"):
+                    return False
+            # a named configuration file was given (not empty, not /dev/null, not the optional default.cfg)
+            if "_configfile" in txt:
+                if c.get("k") in ("CXXOperatorCallExpr", "BinaryOperator") and c.get("op") in ("==", "!="):
+                    lits = [y.get("value") for y in A.walk(c) if y.get("k") == "StringLiteral"]
+                    if lits:
+                        return c["op"] == "!="
+                if c.get("k") == "CXXMemberCallExpr" and callee.endswith("::empty"):
+                    return False
+            return None
+        return atom
+    gp = Fl.CFG(pf)
+    is_cfg_parse = Fl.is_call_to("boost::program_options::parse_config_file")
+    ret_false = lambda n: n.get("k") == "ReturnStmt" and n.get("c") and A.strip(n["c"][0]).get("value") is False
+    ret_true = lambda n: n.get("k") == "ReturnStmt" and n.get("c") and A.strip(n["c"][0]).get("value") is True
+    says = lambda n: n.get("k") == "CXXOperatorCallExpr" and n.get("op") == "<<" or (n.get("callee") or "").endswith("printText")
+    for kind, key_, text in (("missing", "parse:missing-file", "a config file that does not exist"), ("unreadable", "parse:unreadable-file", "a config file that cannot be opened")):
+        g_ = gp.pruned(lambda c, a_=hypothesis(kind): tv(c, a_))
+        reach = g_.reach_from_entry
+        loads = [e for e in g_.events(is_cfg_parse)]
+        rts = g_.events(ret_true)
+        # after the options of the command line are in (the first store), every continuation must print and return false:
+        # no path to `return true`, none to the config-file parser, and a message on the way to each `return false`
+        rfs = g_.events(ret_false)
+        silent = [e for e in rfs if not g_.every_path_to(lambda n, t=e[2]: n is t or n.get("id") == t["id"], says)[0][1]]
+        after_cli = g_.every_path_to(ret_true, lambda n: False)
+        okk = bool(rfs) and not loads and not silent
+        # `return true` may only remain reachable on the paths that leave before the configuration file is looked at (info options)
+        if okk and rts:
+            first_cfg = gp.events(lambda n: "_configfile" in A.show(n) and n.get("k") in ("CXXOperatorCallExpr", "CXXMemberCallExpr", "BinaryOperator"))
+            if first_cfg:
+                b0, i0, _ = min(first_cfg, key=lambda e: e[2]["line"])
+                okk = not g_.some_path_between((b0, i0 - 1), ret_true)
+        chk.check(okk, "R6", pf.where, "%s prints a message and makes parse() return false (CFG of parse() under that hypothesis: config-file parser %s, "
+                  "%d `return false`, %d of them without a message)" % (text, "unreachable" if not loads else "reachable", len(rfs), len(silent)), key_)
     chk.notes.append("C20: store order and targets, _vm writers, alias truth tables on a finite model of boost store/notify instantiated "
                      "with the extracted option table, ignored-option fields, cli/file agreement, error discipline. Exhaustive over the table.")
